@@ -7,12 +7,20 @@
 
   External behaviour is a parameter (`Ext`): the floating step-rounding expression
   `round(min_step * round(value / min_step), 14)` and `str(float)`.
-  The model mirrors the code *with the C09 repair* (`Variant` = `repaired`); the two legacy
-  behaviours are kept behind flags for the counterexample theorems:
+  The model mirrors the code *with the C09 repair* (`Variant` = `repaired`, the code at HEAD); the
+  two legacy behaviours are kept behind flags for the counterexample theorems:
     * `nullSkipsAll`    : `valid_value_or_raise` returned early for the always-null type whatever
                           the value (repaired: only for `None`);
     * `overflowEscapes` : `override_properties` caught `ValueError` only, so an `OverflowError`
                           from re-validation escaped after the properties had been replaced.
+  A third flag describes a *candidate* repair that HEAD does not have:
+    * `getterChecks`    : `get_value` runs `valid_value_or_raise` on what the getter callback
+                          returned before storing it (HEAD: only `to_valid_value`).
+
+  Application callbacks are per-operation parameters: a controller write carries what the setter
+  callback does (`Cb`: not installed / returns / raises), a read carries what the getter callback
+  does (`Getter`: not installed / returns a value / raises); installing and removing callbacks
+  between operations (also through `Service.configure_char`) is therefore inside the alphabet.
 -/
 import HapModel.CharTypes
 import HapModel.Gen.CharConst
@@ -30,10 +38,15 @@ structure Ext where
 structure Variant where
   nullSkipsAll : Bool := false
   overflowEscapes : Bool := false
+  getterChecks : Bool := false
   deriving DecidableEq, Repr
 
-/-- the code with design/fixes/C09.patch -/
+/-- the code with design/fixes/C09.patch (HEAD) -/
 def repaired : Variant := {}
+/-- HEAD + the candidate repair of `get_value` (design/fixes/C09-getter-valid-values.patch) -/
+def strict : Variant := { getterChecks := true }
+/-- the two legacy defects are absent (`repaired` and `strict` are) -/
+def Variant.sound (L : Variant) : Bool := !L.nullSkipsAll && !L.overflowEscapes
 /-- the code as it was -/
 def legacy : Variant := { nullSkipsAll := true, overflowEscapes := true }
 
@@ -126,32 +139,92 @@ def init (E : Ext) (cfg : Cfg) (p : Props) : Except Exn St :=
   if tooLong p.maxLen then .error .valueError
   else (defaultValue E cfg p).map fun d => { props := p, value := d }
 
-/-- `Characteristic.set_value(value, should_notify)` with a broker attached. -/
-def setValue (E : Ext) (L : Variant) (cfg : Cfg) (st : St) (v : Val) (shouldNotify : Bool) : Res :=
-  match toValid E st.props v with
-  | .error e => ⟨st, some e, []⟩
+/-- the conversion-and-validation prefix of `set_value` (everything before the first assignment):
+    `value = self.to_valid_value(value); self.valid_value_or_raise(value)` -/
+def setCheck (E : Ext) (L : Variant) (cfg : Cfg) (p : Props) (v : Val) : Except Exn Val :=
+  match toValid E p v with
+  | .error e => .error e
   | .ok v' =>
-    match validOrRaise L cfg st.props v' with
-    | .error e => ⟨st, some e, []⟩
-    | .ok _ =>
-      let changed := !(st.value.pyEq v')
-      let out := if changed && shouldNotify then [Event.notify v'] else []
-      ⟨{ st with value := if cfg.alwaysNull then .null else v' }, none, out⟩
+    match validOrRaise L cfg p v' with
+    | .error e => .error e
+    | .ok _ => .ok v'
 
-/-- `Characteristic.client_update_value(value, sender)`; the setter callback only records. -/
-def clientUpdate (E : Ext) (L : Variant) (cfg : Cfg) (st : St) (v : Val) : Res :=
-  let conv : Except Exn Val :=
-    if !cfg.alwaysNull || v != .null then toValid E st.props v else .ok v
-  match conv with
+/-- `Characteristic.set_value(value, should_notify)`; `shouldNotify` stands for
+    `should_notify and self.broker`. -/
+def setValue (E : Ext) (L : Variant) (cfg : Cfg) (st : St) (v : Val) (shouldNotify : Bool) : Res :=
+  match setCheck E L cfg st.props v with
   | .error e => ⟨st, some e, []⟩
   | .ok v' =>
-    match (if !cfg.allowInvalid then validOrRaise L cfg st.props v' else .ok ()) with
-    | .error e => ⟨st, some e, []⟩
-    | .ok _ =>
-      let cb := if cfg.hasSetter then [Event.callback v'] else []
+    let changed := !(st.value.pyEq v')
+    let out := if changed && shouldNotify then [Event.notify v'] else []
+    ⟨{ st with value := if cfg.alwaysNull then .null else v' }, none, out⟩
+
+/-- what the application's setter callback does on this write -/
+inductive Cb where
+  /-- no `setter_callback` installed -/
+  | absent
+  | returns
+  /-- the callback raises `e` -/
+  | raises (e : Exn)
+  deriving DecidableEq, Repr
+
+/-- the conversion-and-validation prefix of `client_update_value` -/
+def clientCheck (E : Ext) (L : Variant) (cfg : Cfg) (p : Props) (v : Val) : Except Exn Val :=
+  match (if !cfg.alwaysNull || v != .null then toValid E p v else .ok v) with
+  | .error e => .error e
+  | .ok v' =>
+    match (if !cfg.allowInvalid then validOrRaise L cfg p v' else .ok ()) with
+    | .error e => .error e
+    | .ok _ => .ok v'
+
+/-- `Characteristic.client_update_value(value, sender)`.  A raising setter callback propagates
+    after the value has been assigned: no notification, and the always-null reset is skipped. -/
+def clientUpdate (E : Ext) (L : Variant) (cfg : Cfg) (st : St) (v : Val) (cb : Cb) : Res :=
+  match clientCheck E L cfg st.props v with
+  | .error e => ⟨st, some e, []⟩
+  | .ok v' =>
+    match cb with
+    | .raises e => ⟨{ st with value := v' }, some e, [Event.callback v']⟩
+    | cb =>
+      let cbs := if cb = .returns then [Event.callback v'] else []
       let changed := !(v'.pyEq st.value)
       let nt := if changed then [Event.notify v'] else []
-      ⟨{ st with value := if cfg.alwaysNull then .null else v' }, none, cb ++ nt⟩
+      ⟨{ st with value := if cfg.alwaysNull then .null else v' }, none, cbs ++ nt⟩
+
+/-- what the application's getter callback does on this read -/
+inductive Getter where
+  /-- no `getter_callback` installed -/
+  | absent
+  | returns (x : Val)
+  | raises (e : Exn)
+  deriving DecidableEq, Repr
+
+/-- `Characteristic.get_value()`:
+    `if self.getter_callback: self.value = self.to_valid_value(self.getter_callback())`. -/
+def getValue (E : Ext) (L : Variant) (cfg : Cfg) (st : St) : Getter → Res
+  | .absent => ⟨st, none, []⟩
+  | .raises e => ⟨st, some e, []⟩
+  | .returns x =>
+    match toValid E st.props x with
+    | .error e => ⟨st, some e, []⟩
+    | .ok v =>
+      match (if L.getterChecks then validOrRaise L cfg st.props v else .ok ()) with
+      | .error e => ⟨st, some e, []⟩
+      | .ok _ => ⟨{ st with value := v }, none, []⟩
+
+/-- a read: `get_value()` directly, or through `to_HAP()` (which calls `get_value` only when the
+    characteristic is readable) -/
+def readOp (E : Ext) (L : Variant) (cfg : Cfg) (st : St) (g : Getter) (viaHap : Bool) : Res :=
+  if viaHap && !st.props.readable then ⟨st, none, []⟩ else getValue E L cfg st g
+
+/-- what the read returns (`none`: it raised, or `to_HAP()` carries no value) -/
+def readResult (E : Ext) (L : Variant) (cfg : Cfg) (st : St) (g : Getter) (viaHap : Bool) : Option Val :=
+  if viaHap && !st.props.readable then none
+  else
+    let r := getValue E L cfg st g
+    match r.exn with
+    | some _ => none
+    | none => some r.st.value
 
 /-- The `properties` argument of `override_properties` (only the keys that matter for values). -/
 structure Upd where
@@ -161,14 +234,16 @@ structure Upd where
   minStep : Option Val := none
   maxLen : Option Nat := none
   vv : Option (List Int) := none
-  /-- the dict has some other key (unit, Permissions, ...) -/
+  /-- `Permissions` overridden: does the new list contain `pr` -/
+  readable : Option Bool := none
+  /-- the dict has some other key (unit, ...) -/
   other : Bool := false
   deriving DecidableEq, Repr
 
 /-- `not properties` -/
 def Upd.isEmpty (u : Upd) : Bool :=
   u.fmt.isNone && u.minV.isNone && u.maxV.isNone && u.minStep.isNone && u.maxLen.isNone
-    && u.vv.isNone && !u.other
+    && u.vv.isNone && u.readable.isNone && !u.other
 
 /-- `self._properties.update(properties)` -/
 def Upd.apply (u : Upd) (p : Props) : Props :=
@@ -178,7 +253,7 @@ def Upd.apply (u : Upd) (p : Props) : Props :=
     minStep := u.minStep.or p.minStep
     vv := u.vv.getD p.vv
     maxLen := u.maxLen.or p.maxLen
-    readable := p.readable }
+    readable := u.readable.getD p.readable }
 
 /-- the property set after a (non-rejected) `override_properties(properties, valid_values)` -/
 def overrideProps (p : Props) (u : Upd) (vvArg : List Int) : Props :=
@@ -213,7 +288,8 @@ def override (E : Ext) (L : Variant) (cfg : Cfg) (st : St) (u : Upd) (vvArg : Li
     by statement: `if properties or valid_values: char.override_properties(...)`, then
     `if value: char.set_value(value, should_notify=False)`.  An exception of the override
     propagates before the value is looked at; an exception of `set_value` propagates with the
-    override already done.  (The callback arguments of `configure_char` are not modelled.) -/
+    override already done.  (Its `setter_callback` / `getter_callback` arguments install the
+    callbacks whose behaviour the `client` / `read` operations carry.) -/
 def configurePre (E : Ext) (L : Variant) (cfg : Cfg) (st : St) (u : Upd) (vvArg : List Int) : Res :=
   if !u.isEmpty || !vvArg.isEmpty then override E L cfg st u vvArg else ⟨st, none, []⟩
 
@@ -229,16 +305,18 @@ def configure (E : Ext) (L : Variant) (cfg : Cfg) (st : St) (u : Upd) (vvArg : L
 
 inductive Op where
   | set (v : Val) (shouldNotify : Bool)
-  | client (v : Val)
+  | client (v : Val) (cb : Cb)
   | override (u : Upd) (vvArg : List Int)
   | configure (u : Upd) (vvArg : List Int) (v : Val)
+  | read (g : Getter) (viaHap : Bool)
   deriving DecidableEq, Repr
 
 def step (E : Ext) (L : Variant) (cfg : Cfg) (st : St) : Op → Res
   | .set v n => setValue E L cfg st v n
-  | .client v => clientUpdate E L cfg st v
+  | .client v cb => clientUpdate E L cfg st v cb
   | .override u vv => override E L cfg st u vv
   | .configure u vv v => configure E L cfg st u vv v
+  | .read g h => readOp E L cfg st g h
 
 /-- state after a sequence of operations -/
 def runSt (E : Ext) (L : Variant) (cfg : Cfg) : St → List Op → St
@@ -307,28 +385,52 @@ def optAll (f : Val → Bool) : Option Val → Bool
 
 /-- A property set that admits conforming values at all: finite bounds with `min ≤ max`,
     integral bounds for integer formats, valid values only on numeric formats and inside the
-    bounds, `maxLen ≤ 256`. -/
+    bounds, `maxLen ≤ 256`; and whose `minStep`, when declared on a numeric format, is a number
+    (the step expression is only ever evaluated on numbers then). -/
 def consistent (p : Props) : Bool :=
   (match p.maxLen with | some n => decide (n ≤ absMaxLen) | none => true) &&
   (if p.fmt.isNumeric then
     optAll isFinNum p.minV && optAll isFinNum p.maxV &&
     (match p.minV, p.maxV with | some lo, some hi => lo.le hi | _, _ => true) &&
     (!p.fmt.isInteger || (optAll isIntegralVal p.minV && optAll isIntegralVal p.maxV)) &&
-    p.vv.all (fun i => inBounds p (.int i))
+    p.vv.all (fun i => inBounds p (.int i)) &&
+    optAll Val.isNumeric p.minStep
   else p.vv.isEmpty)
 
-/-- every property set along a history is consistent (the initial one and the one after each
-    override) -/
-def AllConsistent (E : Ext) (L : Variant) (cfg : Cfg) : St → List Op → Prop
-  | st, [] => consistent st.props = true
-  | st, op :: ops => consistent st.props = true ∧ AllConsistent E L cfg (step E L cfg st op).st ops
+/-! ### The property set along a history depends on the operations only -/
 
-instance AllConsistent.dec (E : Ext) (L : Variant) (cfg : Cfg) :
-    ∀ (st : St) (ops : List Op), Decidable (AllConsistent E L cfg st ops)
-  | st, [] => inferInstanceAs (Decidable (consistent st.props = true))
-  | st, op :: ops =>
-    have := AllConsistent.dec E L cfg (step E L cfg st op).st ops
-    inferInstanceAs (Decidable (consistent st.props = true ∧ _))
+/-- `override_properties` refuses up front: nothing to override, or `maxLen` above the limit -/
+def overrideRefused (u : Upd) (vvArg : List Int) : Bool :=
+  (u.isEmpty && vvArg.isEmpty) || tooLong u.maxLen
+
+/-- the property set after an operation: a function of the property set before and of the
+    operation alone (not of the stored value, the variant, the configuration or the parameters) -/
+def propsAfter (p : Props) : Op → Props
+  | .override u vv => if overrideRefused u vv then p else overrideProps p u vv
+  | .configure u vv _ =>
+    if (!u.isEmpty || !vv.isEmpty) && !overrideRefused u vv then overrideProps p u vv else p
+  | _ => p
+
+/-- every property set along a history is consistent (the initial one and the one after each
+    override): a condition on the *inputs* (declared set, operation list) only -/
+def consistentAlong : Props → List Op → Bool
+  | p, [] => consistent p
+  | p, op :: ops => consistent p && consistentAlong (propsAfter p op) ops
+
+/-- a getter callback's answer is acceptable under `p`: once converted it passes the
+    valid-values check (vacuous for reads without a getter answer) -/
+def readOk (E : Ext) (cfg : Cfg) (p : Props) : Op → Bool
+  | .read (.returns x) viaHap =>
+    (viaHap && !p.readable) ||
+    (match toValid E p x with
+     | .ok v => (match validOrRaise repaired cfg p v with | .ok _ => true | .error _ => false)
+     | .error _ => true)
+  | _ => true
+
+/-- every getter answer along a history is acceptable under the property set then in force -/
+def readsOkAlong (E : Ext) (cfg : Cfg) : Props → List Op → Bool
+  | _, [] => true
+  | p, op :: ops => readOk E cfg p op && readsOkAlong E cfg (propsAfter p op) ops
 
 /-- no override / configure in the history (the property set stays the declared one) -/
 def noOverride : List Op → Bool
@@ -336,5 +438,21 @@ def noOverride : List Op → Bool
   | .override _ _ :: _ => false
   | .configure _ _ _ :: _ => false
   | _ :: ops => noOverride ops
+
+/-- no getter callback answers in the history -/
+def noGetter : List Op → Bool
+  | [] => true
+  | .read (.returns _) _ :: _ => false
+  | _ :: ops => noGetter ops
+
+/-- base conformance (format / type / range / length), `null` allowed for the always-null type:
+    what survives a getter callback that answers with an undeclared value -/
+def confB (cfg : Cfg) (p : Props) (v : Val) : Bool :=
+  (cfg.alwaysNull && v == .null) || confBase p v
+
+/-- conformance as demanded of application-side values: the opt-in to invalid *controller*
+    values does not exempt them -/
+def confStrict (cfg : Cfg) (p : Props) (v : Val) : Bool :=
+  conf { cfg with allowInvalid := false } p v
 
 end Hap.Char
